@@ -7,7 +7,7 @@ use sos_core::{
     events::{patch::CheckedPatch, EventLogType, EventRecord},
     SecretPath, UtcDateTime,
 };
-use time::{Duration, OffsetDateTime};
+use time::OffsetDateTime;
 
 impl ProtoBinding for UtcDateTime {
     type Inner = WireUtcDateTime;
@@ -17,8 +17,10 @@ impl TryFrom<WireUtcDateTime> for UtcDateTime {
     type Error = Error;
 
     fn try_from(value: WireUtcDateTime) -> Result<Self> {
-        let time = OffsetDateTime::from_unix_timestamp(value.seconds)?
-            + Duration::nanoseconds(value.nanos as i64);
+        let time = OffsetDateTime::from_unix_timestamp(value.seconds)?;
+        let time = OffsetDateTime::from_unix_timestamp_nanos(
+            time.unix_timestamp_nanos() + value.nanos as i128,
+        )?;
         Ok(time.into())
     }
 }
